@@ -121,7 +121,21 @@ theorem consistent_edit (s : MState) (hs : Consistent s) (op : Grid.Op Nat) (hst
     (∀ s', mstep s op = .ok s' → Consistent s' ∧
       rectsOf s'.mmap = shiftRects op s.grid.numRows s.grid.numCols (rectsOf s.mmap) ∧
       (s'.grid.numRows, s'.grid.numCols) = dimsAfter op s.grid.numRows s.grid.numCols) :=
-  edit_consistent_full s hs op hst
+  ⟨(edit_consistent_full s hs op hst).1, fun s' h =>
+    let r := (edit_consistent_full s hs op hst).2 s' h; ⟨r.1, r.2.1, r.2.2.1⟩⟩
+
+/-- **... and the values.**  After a row / column edit the cells are those of the plain grid with the same
+    edit applied (C03's `specStep` on the grid of cells: surviving cells at their new positions, new cells
+    empty or holding the `default`), except that every non-anchor cell of a (new) rectangle is empty
+    (`Covered`): cells outside the rectangles are untouched, an anchor that survives keeps its value, new
+    cells inside a grown rectangle are placeholders whatever the `default`. -/
+theorem edit_values (s : MState) (hs : Consistent s) (op : Grid.Op Nat) (hst : IsStructural op)
+    (s' : MState) (h : mstep s op = .ok s') (a b : Nat) (y : MCell)
+    (hy : gget (Grid.specStep emptyCell (Grid.abs s.grid) (liftOp s op)).cells a b = some y) :
+    ∃ cell', cellAt s'.grid.data a b = some cell' ∧
+      (Covered (rectsOf s'.mmap) ((a : Int), (b : Int)) → cell'.val.val = 0) ∧
+      (¬ Covered (rectsOf s'.mmap) ((a : Int), (b : Int)) → cell'.val.val = y.val) :=
+  ((edit_consistent_full s hs op hst).2 s' h).2.2.2 a b y hy
 
 /-- the code's rectangle arithmetic (`_move_merges`: `count > 0` inserts, otherwise deletes `-count`,
     written with `max`) is the specification, for insertions and for deletions. -/
@@ -143,6 +157,33 @@ theorem shift_spec_sound {rows ins : Bool} {start n nr nc nr' nc' : Int} (he : E
   · have hp : qs.Pairwise (fun a b => a.Nonempty ∧ b.Nonempty ∧ Rct.Disjoint a b) :=
       hd.imp_of_mem (fun ha hb hd => ⟨(hin _ ha).nonempty, (hin _ hb).nonempty, hd⟩)
     exact List.Pairwise.filterMap _ (fun a a' ⟨x, y, z⟩ b hb b' hb' => spec_disjoint he.n0 x y z hb hb') hp
+
+/-- **The specification, cell by cell (insertion).**  A rectangle is never dropped; an old cell lies in the
+    rectangle iff its new position (indices from `start` on move by `n`) lies in the new rectangle - rectangles
+    move with their cells, rectangles before the insertion are untouched; and a *new* cell lies in the new
+    rectangle iff the insertion was strictly inside the old one (after its first, at or before its last
+    row / column) and the cell is within the rectangle's other axis - the rectangle grows. -/
+theorem shift_spec_insert_cells (rows : Bool) (start n : Int) (hn : 0 ≤ n) (q : Rct) (hq : q.Nonempty) :
+    ∃ q', shiftRectSpec rows true start n q = some q' ∧
+      (∀ k : Key, q.has k = true ↔ q'.has (moveKey rows (fun i => if start ≤ i then i + n else i) k) = true) ∧
+      (∀ k : Key, start ≤ axisOf rows k → axisOf rows k < start + n →
+        (q'.has k = true ↔ ((if rows then q.r0 else q.c0) < start ∧ start ≤ (if rows then q.r1 else q.c1) ∧
+          (if rows then q.c0 ≤ k.2 ∧ k.2 ≤ q.c1 else q.r0 ≤ k.1 ∧ k.1 ≤ q.r1)))) :=
+  spec_ins_cells rows start n hn q hq
+
+/-- **The specification, cell by cell (deletion).**  If the rectangle remains, a surviving old cell (row /
+    column index outside `start .. start+n-1`) lies in it iff its new position (indices from `start + n` on move
+    down by `n`) lies in the new rectangle - it moves with its cells and shrinks by the deleted rows / columns;
+    if it ceases to be a merge, it lost a row / column and at most one of its cells survives. -/
+theorem shift_spec_delete_cells (rows : Bool) (start n : Int) (hn : 0 ≤ n) (q : Rct) (hq : q.Nonempty) :
+    match shiftRectSpec rows false start n q with
+    | some q' => ∀ k : Key, (axisOf rows k < start ∨ start + n ≤ axisOf rows k) →
+        (q.has k = true ↔ q'.has (moveKey rows (fun i => if start + n ≤ i then i - n else i) k) = true)
+    | none =>
+      (∃ i, (if rows then q.r0 else q.c0) ≤ i ∧ i ≤ (if rows then q.r1 else q.c1) ∧ start ≤ i ∧ i < start + n) ∧
+      (∀ k k' : Key, (axisOf rows k < start ∨ start + n ≤ axisOf rows k) →
+        (axisOf rows k' < start ∨ start + n ≤ axisOf rows k') → q.has k = true → q.has k' = true → k = k') :=
+  spec_del_cells rows start n hn q hq
 
 /-- **Histories.**  Every table reachable from a new table of any shape by any finite history of merges
     (in-table, disjoint from the existing rectangles), writes not aimed at a placeholder, and row /
